@@ -93,7 +93,7 @@ def api_rejects(kind, until, cid_kind="valid"):
 
 
 def expected_code(cid, kinds, until):
-    if cid == "missing":
+    if cid.startswith("missing"):
         return 3
     if cid in ("rejected", "malformed", "nofields", "nofields+check"):
         return 1
@@ -123,7 +123,10 @@ def arguments_for(case):
     arguments = []
     if case["until"] is not None:
         arguments += ["--until", str(case["until"])]
-    cid_path = os.path.join(folder(), "cid_%s.csv" % case["cid"]) if case["cid"] != "missing" else os.path.join(folder(), "no_such_cid.csv")
+    if case["cid"].startswith("missing"):  # "missing" or "missing.<suffix>": a CID file that does not exist, named like a CSV, ODS or Excel file
+        cid_path = os.path.join(folder(), "no_such_cid" + (case["cid"][len("missing"):] or ".csv"))
+    else:
+        cid_path = os.path.join(folder(), "cid_%s.csv" % case["cid"])
     return arguments + [cid_path] + [path_of(kind, case["cid"]) for kind in case["files"]]
 
 
@@ -177,7 +180,7 @@ def all_cases(tier="quick"):
     cases = []
     thorough = tier == "thorough"
     lists = [list(p) for n in range(0, 5 if thorough else 4) for p in itertools.product(KINDS, repeat=n)]
-    for cid in ("valid", "rejected", "malformed", "missing", "nofields", "nofields+check"):
+    for cid in ("valid", "rejected", "malformed", "missing", "missing.ods", "missing.xlsx", "missing.xls", "missing.txt", "nofields", "nofields+check"):
         for files in lists:
             for until in UNTILS:
                 if cid != "valid" and (until not in (None, 2) or len(files) > 2):
